@@ -19,6 +19,10 @@ CHECKS = {
          "Same sweep as C02 with the completeness clause at n=len, monotonicity between consecutive cut lengths and, without compression, a lower bound computed by the independent format model from the bytes present / in complete chunks."),
  "C06": ("exploration", "deterministic simulation used as history generator; differential check against an independent implementation of FORMAT.md (both directions) and of AES-GCM call splits",
          "Library images decoded by the independent format model with the documented constants; foreign-writer archives read by the library; incremental AES-GCM vs the aes-gcm crate for exhaustive 2-splits up to 80 bytes and seeded k-splits; historical sample archive."),
+ "C07": ("exploration", "deterministic simulation with the real OS entropy source: repeated identical histories in-process and in freshly spawned processes; sink monitor for plaintext; key-list matrix",
+         "Identical workloads are written 8 times in-process and in two fresh processes on the unmodified prod build (and prodv with hook H2 not engaged): keys, nonces and ephemeral public keys pairwise distinct; no content marker or name in the stored bytes after the header; every recipient opens at any key-list position, no other key does."),
+ "C08": ("fault_enumeration", "deterministic simulation: structured fault injection at all three layers (stored bytes, compressed stream, file-layer stream re-wrapped with valid encryption), crafted hostile footers/size tables, operation histories continuing after errors; process isolation, step budget, counting allocator",
+         "Every single bit flip and cut of one small archive plus seeded k<=3 structured faults and hand-built hostile streams; each operation of a history that continues after errors must return Ok/Err: no panic, no worker death (stack overflow, abort), seam-call budget, heap ceiling proportional to the input."),
  "C09": ("exploration", "deterministic simulation: exhaustive short call histories + seeded long ones vs a call-validation model; completion, read-back, repair and linear extraction of the result",
          "All call sequences of length 1..3 (quick) / 1..4 (thorough) over an 18-symbol alphabet of valid and invalid writer calls on s0, plus seeded sequences of length 5..40 on all variants/layers; the library must refuse exactly the calls the model refuses, never accept a short source, and the finished archive must equal the model that ignored refused calls."),
  "C10": ("exploration", "deterministic simulation: seeded reader operation histories on one reader vs per-file cursor model",
